@@ -122,6 +122,20 @@ Definition block_obs_ok (x : N * string * option obs_block) : bool :=
   end.
 Definition bad_block_dispatch := bad block_obs_ok block_dispatch.
 
+(* NewBlockFromCborWithOffsets: same requirement, and the same answer as NewBlockFromCbor cell by cell *)
+Definition bad_offsets_dispatch := bad block_obs_ok offsets_dispatch.
+Definition find_obs {A} (t : N) (name : string) (l : list (N * string * A)) : option A :=
+  option_map snd (find (fun x => (fst (fst x) =? t) && String.eqb (snd (fst x)) name) l).
+Definition ob_eqb (a b : obs_block) : bool :=
+  (ob_type a =? ob_type b) && (ob_era a =? ob_era b).
+Definition offsets_cell_agrees (x : N * string * option obs_block) : bool :=
+  let '(t, name, o) := x in
+  match find_obs t name block_dispatch with
+  | Some o' => opt_eqb ob_eqb o o'
+  | None => false
+  end.
+Definition offsets_disagree := bad offsets_cell_agrees offsets_dispatch.
+
 Definition header_obs_ok (x : N * string * option N) : bool :=
   let '(t, _, o) := x in
   match o with
@@ -197,3 +211,33 @@ Definition case_mapped (c : N * N * N) : bool :=
   | None => false
   end.
 Definition unmapped_cases := flat_map (fun l => bad case_mapped (l_cases l)) layouts.
+
+(* ---- correspondence: histories ------------------------------------------
+   An entry point was called with type id h_prev and then with h_t on the same
+   bytes in one process; (h_type, h_era) is what the SECOND call reported
+   (None, None = error).  Model: dispatch is a function of (type id, bytes)
+   only, i.e. the cell of the (history-free) table. *)
+Record hcase := mkh {
+  h_entry : N;          (* 0 NewBlockFromCbor, 1 NewBlockFromCborWithOffsets, 2 NewBlockHeaderFromCbor, 3 NewTransactionFromCbor *)
+  h_prev : N;
+  h_t : N;
+  h_fix : string;
+  h_type : option N;
+  h_era : option N }.
+Definition h_expect (c : hcase) : option (option N * option N) :=
+  match h_entry c with
+  | 0 => match find_obs (h_t c) (h_fix c) block_dispatch with
+         | Some (Some ob) => Some (Some (ob_type ob), Some (ob_era ob)) | Some None => Some (None, None) | None => None end
+  | 1 => match find_obs (h_t c) (h_fix c) offsets_dispatch with
+         | Some (Some ob) => Some (Some (ob_type ob), Some (ob_era ob)) | Some None => Some (None, None) | None => None end
+  | 2 => match find_obs (h_t c) (h_fix c) header_dispatch with
+         | Some (Some e) => Some (None, Some e) | Some None => Some (None, None) | None => None end
+  | _ => match find_obs (h_t c) (h_fix c) tx_dispatch with
+         | Some (Some ty) => Some (Some ty, None) | Some None => Some (None, None) | None => None end
+  end.
+Definition h_check (c : hcase) : bool :=
+  match h_expect c with
+  | Some (ty, era) => opt_eqb N.eqb ty (h_type c) && opt_eqb N.eqb era (h_era c)
+  | None => false
+  end.
+Definition hist_mismatches := failing h_check.
